@@ -223,6 +223,53 @@ func main() {
 	fmt.Println(f())
 }
 `,
+		// F53: nil assigned to a method's receiver is a nil of the receiver's type; F54: scalars held by any are not nil;
+		// F57: nil on the left of a comparison; F58: typed declarations with a nil initialiser
+		`package main
+
+import "fmt"
+
+type Node struct {
+	val  int
+	next *Node
+}
+
+func (n *Node) Count() int {
+	if n == nil {
+		return 0
+	}
+	return 1 + n.next.Count()
+}
+
+func (n *Node) Clear() int {
+	n = nil
+	return n.Count()
+}
+
+func (n *Node) Drop() *Node {
+	if n.val > 0 {
+		n = n.next
+	}
+	if nil == n {
+		return nil
+	}
+	return n
+}
+
+func main() {
+	h := &Node{val: 1, next: &Node{val: 2}}
+	fmt.Println(h.Count(), h.Clear(), h.next.Drop() == nil, h.Drop().val)
+	var a any = "x"
+	var z any = 0
+	var f any = false
+	fmt.Println(a == nil, z == nil, f == nil, nil == a, nil != z)
+	var s []float64 = nil
+	var m map[string]int
+	var p *Node = nil
+	s = append(s, 1)
+	fmt.Println(s[0]/2, nil == m, p.Count(), nil == p, -010, 5 - 0x10)
+}
+`,
 	}
 	var res []*gen.Program
 	for i, src := range srcs {
